@@ -145,6 +145,32 @@ def check(ctx):
                                 C.issue('benchmark-raised-on-integer-array', 'oracle', dict(how='bench', name=name, x=x, integer=shape_), error=repr(ex)[:100])
                         if yi is not None and not close(yi, y) and not (yi != yi and y != y):
                             C.issue('not-the-documented-formula', 'oracle', dict(how='bench', name=name, x=x, integer=shape_), got=yi, reference=y)
+                # the value depends on the numbers handed in, not on the array object or its memory layout: the same point
+                # as a non-contiguous view (a column of a matrix, a stepped slice), and a buffer that held another point
+                # before and was overwritten in place
+                n_ = len(x)
+                mat = np.full((n_, 3), 7.25)
+                mat[:, 1] = x
+                stepped = np.full(2 * n_, -3.5)
+                stepped[::2] = x
+                buf = np.array([0.37 * (k_ + 1) for k_ in range(n_)], dtype=float)
+                variants = [('matrix-column', lambda: mat[:, 1]), ('matrix-column-2d', lambda: mat[:, 1:2]), ('stepped-slice', lambda: stepped[::2])]
+                for vname, mk_ in variants:
+                    try:
+                        yv = float(np.asarray(fn(mk_())).reshape(-1)[0])
+                    except Exception as ex:
+                        C.issue('benchmark-raised-on-view', 'oracle', dict(how='bench', name=name, x=x, view=vname), error=repr(ex)[:100])
+                        continue
+                    if not close(yv, y) and not (yv != yv and y != y):
+                        C.issue('not-the-documented-formula', 'oracle', dict(how='bench', name=name, x=x, view=vname), got=yv, reference=y)
+                try:
+                    fn(buf)
+                    buf[:] = x
+                    yb = float(fn(buf))
+                    if not close(yb, y) and not (yb != yb and y != y):
+                        C.issue('not-the-documented-formula', 'oracle', dict(how='bench', name=name, x=x, view='reused-buffer'), got=yb, reference=y)
+                except Exception:
+                    pass
                 rp = dict(how='bench', name=name, x=x)
                 if o in ('bad-op', 'error'):
                     C.issue('benchmark-mismatch', 'correspondence', rp, model=o)
@@ -270,6 +296,25 @@ def replay(prop, payload):
         float(np.asarray(getattr(bm, name)(np.array(x, dtype=float))).reshape(-1)[0])
     except Exception:
         return True
+    if payload.get('view'):
+        xf = np.array(x, dtype=float)
+        n_ = len(x)
+        yf = float(np.asarray(getattr(bm, name)(xf)).reshape(-1)[0])
+        if payload['view'] == 'reused-buffer':
+            buf = np.array([0.37 * (k_ + 1) for k_ in range(n_)], dtype=float)
+            getattr(bm, name)(buf)
+            buf[:] = x
+            yv = float(getattr(bm, name)(buf))
+        elif payload['view'] == 'stepped-slice':
+            st_ = np.full(2 * n_, -3.5)
+            st_[::2] = x
+            yv = float(np.asarray(getattr(bm, name)(st_[::2])).reshape(-1)[0])
+        else:
+            mat = np.full((n_, 3), 7.25)
+            mat[:, 1] = x
+            v_ = mat[:, 1] if payload['view'] == 'matrix-column' else mat[:, 1:2]
+            yv = float(np.asarray(getattr(bm, name)(v_)).reshape(-1)[0])
+        return not close(yv, yf) and not (yv != yv and yf != yf)
     if payload.get('integer'):
         xi = np.array([int(v) for v in x]) if payload['integer'] == 'flat' else np.array([[int(v)] for v in x])
         yf = float(np.asarray(getattr(bm, name)(np.array(x, dtype=float))).reshape(-1)[0])
